@@ -1,7 +1,7 @@
 #!/usr/bin/env python3
 """C13 -- RTL testbench results do not depend on the power-on state.
 proof:  Properties_C13.v over TbModel.v (hextb.cpp's clock/reset/system-call loop driving the generated RTL semantics from an
-        arbitrary power-on state, including Verilator's two hidden first-edge bits).
+        arbitrary power-on state, including the four hidden previous-clock/previous-reset copies of Verilator's triggers).
 tie:    hextb.cpp's own load()/run() linked into harness/tb_harness.cpp with a planted power-on state (registers, memory
         outside the image, adversarial fills) on a Verilated `hex` built from the working tree; the hextb executable under
         +verilator+seed+<n>.
@@ -121,7 +121,7 @@ def model_correspondence(ck, d, tbh, progs):
         plants.append('pc=0 areg=0 breg=0 oreg=0 fill=0x00')
         plants.append('pc=2097151 areg=4294967295 breg=4294967295 oreg=4294967280 fill=0xff')
         rng.shuffle(plants)
-        for desc in plants[:(4 if not ck.thorough() else 60)]:
+        for desc in plants[:(4 if not ck.thorough() else 16)]:
             stats['states'] += 1
             hs = list(range(16)) if ck.thorough() else sorted(set([0, 15] + rng.sample(range(16), 4)))
             for h in hs:
